@@ -34,6 +34,7 @@ type ogen struct {
 	lib     string
 	errFile string // file and line of the planted failure (after assembling)
 	ctxOut  string // rendering of '.' at the top level of the program
+	named   bool   // the program prints values of named types with print methods (outside the model)
 	ctxOK   bool   // '.' is still the program's data here (not inside a body that rebinds it)
 }
 
@@ -78,7 +79,42 @@ func (g *ogen) text() onode {
 // value print: the bytes must be the escaper applied once to the printed form
 func (g *ogen) print() onode {
 	r := g.r
-	switch r.Intn(8) {
+	k9 := r.Intn(9)
+	if k9 == 8 && !g.named {
+		k9 = r.Intn(8)
+	}
+	switch k9 {
+	case 8:
+		// the printed form of a value with a String / Error method is that method's text, whatever the
+		// kind of the value; it is data like any other and goes through the escaper once
+		k := r.Pick([]string{"int", "bool", "float", "str", "u8", "struct", "pint", "err"})
+		var want string
+		switch k {
+		case "int", "pint":
+			want = namedText("int", 3)
+		case "bool":
+			want = namedText("bool", true)
+		case "float":
+			want = namedText("float", 1.5)
+		case "str":
+			want = namedText("str", "s'")
+		case "u8":
+			want = namedText("u8", 7)
+		case "struct":
+			want = namedText("struct", 4)
+		default:
+			want = "e<\"&"
+		}
+		n := "nv_" + k
+		switch r.Intn(5) {
+		case 0:
+			return onode{src: "{{ " + n + " | raw }}", out: want, failOff: -1}
+		case 1:
+			return onode{src: "{{ " + n + " | safeHtml }}", out: htmlEsc(want), failOff: -1}
+		case 2:
+			return onode{src: "{{ ident(" + n + ") }}", out: g.escape(want), failOff: -1}
+		}
+		return onode{src: "{{ " + n + " }}", out: g.escape(want), failOff: -1}
 	case 0, 1, 2:
 		names := []string{}
 		for n := range g.strVals {
@@ -142,7 +178,8 @@ func (g *ogen) failing() onode {
 	act := g.r.Pick([]string{"{{ nope }}", "{{ ia / zero }}", "{{ li[9] }}", "{{ st.Missing }}", "{{ np.A }}", "{{ fail(\"x\") }}", "{{yield nosuchblock()}}", "{{include \"/absent.jet\"}}", "{{ sa - 1 }}", "{{ li[1:9] }}", "{{range ia}}x{{end}}", "{{ upper(_) }}",
 		"{{ cat(\"a\", _) }}", "{{ cat(\"a\", \"b\", _) }}", "{{ add3(1, _, 2) }}", "{{ add3(1, 2) }}", "{{ add3(1, 2, 3, 4) }}", "{{ sa() }}", "{{ st.A() }}",
 		"{{ ident(n) }}", "{{ sa | nope }}", "{{ upper(ia, ia) }}", "{{ repeat(sa, sa) }}", "{{ len() }}", "{{ map(\"k\") }}", "{{ ints(3, 1) }}", "{{ li[sa] }}", "{{ m.k.x.y }}", "{{ -sa }}",
-		"{{ ia % zero }}", "{{ n.x }}", "{{ li[-1] }}", "{{ sa[5:2] }}"})
+		"{{ ia % zero }}", "{{ ia % 0.5 }}", "{{ ia % -0.25 }}", "{{ ia / \"0\" }}", "{{ ia % \"0\" }}", "{{ ia % t }}", "{{ ia / t }}", "{{ 1.5 % 0.9 }}", "{{ ia / (zero * ib) }}", "{{ n.x }}", "{{ li[-1] }}", "{{ sa[5:2] }}",
+		"{{ li[1:4] }}", "{{ li[:5] }}", "{{ ls[0:4] }}", "{{ len(li[:4]) }}", "{{ li[4:] }}", "{{range li[2:4]}}x{{end}}", "{{ li[3] }}", "{{ ls[3] }}"})
 	return onode{src: act, out: "", failOff: 0}
 }
 
@@ -266,6 +303,17 @@ func (g *ogen) node(d int, allowFail bool) onode {
 		body := g.seq(d-1, false)
 		if r.Bool() {
 			return wrap("{{try}}", body, "{{catch}}"+g.dead(0).src+"{{end}}")
+		}
+		if r.Chance(25) {
+			// the catch body fails too: the whole inner try is a failure of the outer body, nothing of it
+			// (body, catch prefix) may surface - not here, and not in any later try
+			b2 := g.seq(d-1, false)
+			c1 := g.seq(d-1, false)
+			f1, f2 := g.failing(), g.failing()
+			c2 := g.seq(d-1, false)
+			after := g.seq(d-1, false)
+			src := "{{try}}" + body.src + "{{try}}LEAK" + b2.src + f1.src + "{{catch}}" + c1.src + f2.src + "{{end}}" + g.dead(0).src + "{{catch}}"
+			return cat(wrap(src, c2, "{{end}}"), wrap("{{try}}", after, "{{end}}"))
 		}
 		c := g.seq(d-1, allowFail)
 		f := g.failing()
@@ -495,11 +543,21 @@ func genOracleProgram(r *h.Rand, flavor string) (*prog, *sx.Sexp) {
 		Add(bind("el", vSliceI())).Add(bind("li", vSliceT(vInt(3), vInt(0), vInt(7)))).Add(bind("ls", vSliceT(vStr("a<"), vStr(""), vStr("b")))).
 		Add(bind("m", vMapI("k", vStr("v")))).Add(bind("mn", vMapI("p", vPtr("T1", nil), "m", nilMapI(), "s", nilSliceI(), "i", vNil(), "v", vInt(1)))).Add(bind("mz", vMapI("k", vInt(0)))).Add(bind("me", vMapI("", vStr("x"), "k", vStr("")))).
 		Add(bind("ms", vMapT("a", vT2("na<", 1, true), "b", vT2("nb", 2, false), "c", vT2("", 0, false)))).Add(bind("st", vT1(5, "B<", vSliceI(vInt(1)), vMapI("k", vInt(1)), vPtr("T1", inner), vNil())))
+	g.named = r.Chance(30)
+	named := func(k string, v *sx.Sexp) *sx.Sexp { return sx.L(sx.A("named"), sx.A(k), v) }
+	vars.Add(bind("nv_int", named("int", vInt(3)))).Add(bind("nv_pint", named("pint", vInt(3)))).Add(bind("nv_bool", named("bool", vBool(true)))).
+		Add(bind("nv_float", named("float", vFloat(1.5)))).Add(bind("nv_str", named("str", vStr("s'")))).Add(bind("nv_u8", named("u8", vInt(7)))).
+		Add(bind("nv_struct", named("struct", vInt(4)))).Add(bind("nv_err", named("err", vStr("e<\"&"))))
 	vars.Add(bind("trimSpace", vFunc("shout")))
 	p.globals.Add(bind("html", vFunc("shout")))
 	p.vars = vars
 	p.data = vStr("c<x")
 	g.ctxOut = g.escape("c<x")
+	if r.Chance(25) {
+		// no data: '.' prints nothing - also right after an execution (same process, pooled runtime) that had data
+		p.data = vNil()
+		g.ctxOut = ""
+	}
 	g.ctxOK = true
 	if flavor == "errors" || flavor == "try" && r.Chance(20) {
 		g.failPct = 15
